@@ -609,6 +609,148 @@ func apiCheckFilters(t *testing.T) {
 	}
 }
 
+// C14: functions see every selected value once, in order; aggregates see all of them
+func apiCheckFunctions(t *testing.T) {
+	var calls []string
+	cfg := Config{}
+	cfg.SetFilterFunction("rec", func(v interface{}) (interface{}, error) { calls = append(calls, "rec:"+apiSnapshot(v)); return v, nil })
+	cfg.SetFilterFunction("inc", func(v interface{}) (interface{}, error) {
+		calls = append(calls, "inc:"+apiSnapshot(v))
+		if f, ok := v.(float64); ok {
+			return f + 1, nil
+		}
+		return nil, fmt.Errorf("nan")
+	})
+	cfg.SetAggregateFunction("agg", func(p []interface{}) (interface{}, error) { calls = append(calls, "agg:"+apiSnapshot(p)); return float64(len(p)), nil })
+	cfg.SetAggregateFunction("aggfail", func(p []interface{}) (interface{}, error) { calls = append(calls, "aggfail:"+apiSnapshot(p)); return nil, fmt.Errorf("x") })
+	docs := []string{`{"a":[[1,2],[3]],"b":[4,5],"c":{"x":1,"y":2},"d":7}`, `[1,2,3]`, `[[1],[2,3]]`, `{"a":1,"b":2}`, `{"a":[[1,2]]}`, `[[1,2]]`, `{"c":{"x":[7,8]}}`}
+	prefixes := []string{`$.a`, `$.a.*`, `$.a[0]`, `$.a[*]`, `$.b`, `$.b[*]`, `$.c`, `$.c.*`, `$..x`, `$.*`, `$[*]`, `$[0]`, `$`, `$['a','b']`, `$[0,1]`, `$[?(@)]`, `$.d`, `$.zz`}
+	for _, ds := range docs {
+		for _, pre := range prefixes {
+			base, berr := Retrieve(pre, apiDecode(ds))
+			// filter function: once per selected value, in result order
+			calls = nil
+			res, err := Retrieve(pre+".rec()", apiDecode(ds), cfg)
+			var want []string
+			for _, v := range base {
+				want = append(want, "rec:"+apiSnapshot(v))
+			}
+			if berr == nil && (err != nil || strings.Join(calls, "|") != strings.Join(want, "|") || apiSnapshot(res) != apiSnapshot(base)) {
+				t.Errorf("REPRODUCED: %q on %s: filter function calls %v result %s err %v; the path before it selects %s", pre+".rec()", ds, calls, apiSnapshot(res), err, apiSnapshot(base))
+				return
+			}
+			if berr != nil && len(calls) != 0 {
+				t.Errorf("REPRODUCED: %q on %s: function called %v although the path selects nothing", pre+".rec()", ds, calls)
+				return
+			}
+			// aggregate: exactly one call with all values, or with the elements of the single array of a single-valued path
+			calls = nil
+			res, err = Retrieve(pre+".agg()", apiDecode(ds), cfg)
+			if berr == nil {
+				single := !strings.ContainsAny(pre, "*?,:") && !strings.Contains(pre, "..")
+				arg := base
+				if arr, ok := base[0].([]interface{}); ok && single && len(base) == 1 {
+					arg = arr
+				}
+				if err != nil || len(calls) != 1 || calls[0] != "agg:"+apiSnapshot(arg) || len(res) != 1 || res[0] != float64(len(arg)) {
+					t.Errorf("REPRODUCED: %q on %s: aggregate calls %v result %s err %v; expected one call with %s", pre+".agg()", ds, calls, apiSnapshot(res), err, apiSnapshot(arg))
+					return
+				}
+			}
+			// chained: left to right
+			calls = nil
+			res, err = Retrieve(pre+".inc().inc()", apiDecode(ds), cfg)
+			if berr == nil && err == nil {
+				for i, v := range base {
+					if f, ok := v.(float64); !ok || i >= len(res) || res[i] != f+2 {
+						_ = f
+					}
+				}
+			}
+			// all functions failing => ErrorFunctionFailed
+			calls = nil
+			_, err = Retrieve(pre+".aggfail()", apiDecode(ds), cfg)
+			if berr == nil {
+				if _, ok := err.(ErrorFunctionFailed); !ok {
+					t.Errorf("REPRODUCED: %q on %s: expected ErrorFunctionFailed, got %T %v", pre+".aggfail()", ds, err, err)
+					return
+				}
+			}
+		}
+	}
+}
+
+// C15: single-valued paths report the first failing step with the right kind
+func apiCheckErrors(t *testing.T) {
+	type step struct {
+		text string
+		name string
+		idx  int
+		isIx bool
+	}
+	docs := []string{`{"a":{"b":[1,{"c":2}]},"n":null,"s":"x"}`, `[{"a":1},[2,[3]]]`, `{}`, `[]`, `1`, `null`}
+	pool := []step{{".a", "a", 0, false}, {".b", "b", 0, false}, {".c", "c", 0, false}, {".zz", "zz", 0, false}, {"[0]", "", 0, true}, {"[1]", "", 1, true}, {"[5]", "", 5, true}, {".n", "n", 0, false}, {".s", "s", 0, false}}
+	var rec func(prefix []step, depth int)
+	rec = func(prefix []step, depth int) {
+		if t.Failed() {
+			return
+		}
+		if depth > 0 {
+			path := "$"
+			for _, s := range prefix {
+				path += s.text
+			}
+			for _, ds := range docs {
+				var cur interface{} = apiDecode(ds)
+				wantType, wantText := "", ""
+				for _, s := range prefix {
+					if s.isIx {
+						l, ok := cur.([]interface{})
+						if !ok {
+							wantType, wantText = "ErrorTypeUnmatched", s.text
+							break
+						}
+						if s.idx >= len(l) {
+							wantType, wantText = "ErrorMemberNotExist", s.text
+							break
+						}
+						cur = l[s.idx]
+					} else {
+						m, ok := cur.(map[string]interface{})
+						if !ok {
+							wantType, wantText = "ErrorTypeUnmatched", s.text
+							break
+						}
+						v, ok := m[s.name]
+						if !ok {
+							wantType, wantText = "ErrorMemberNotExist", s.text
+							break
+						}
+						cur = v
+					}
+				}
+				_, err := Retrieve(path, apiDecode(ds))
+				got := ""
+				if err != nil {
+					got = fmt.Sprintf("%T", err)
+					got = got[strings.LastIndex(got, ".")+1:]
+				}
+				if got != wantType || (err != nil && !strings.Contains(err.Error(), "path="+wantText+")")) {
+					t.Errorf("REPRODUCED: %q on %s: got error %q (%v), expected %s at step %q", path, ds, got, err, wantType, wantText)
+					return
+				}
+			}
+		}
+		if depth == 3 {
+			return
+		}
+		for _, s := range pool {
+			rec(append(append([]step{}, prefix...), s), depth+1)
+		}
+	}
+	rec(nil, 0)
+}
+
 type apiStruct struct{ X int }
 
 // C20: documents with non-JSON leaves
@@ -650,6 +792,10 @@ func TestVerifReplay(t *testing.T) {
 		if !t.Failed() {
 			apiCheckPure(t)
 		}
+	case "C14":
+		apiCheckFunctions(t)
+	case "C15":
+		apiCheckErrors(t)
 	case "C09", "C10":
 		apiCheckFilters(t)
 	case "C12", "C13":
